@@ -60,6 +60,8 @@ pub struct RunStats {
     pub log_events: u64,
     pub nontrivial: bool,
     pub interleaving: Option<u64>,
+    /// per-execution schedule hashes inside this run (poolsim: one per scheduled execution)
+    pub schedules_seen: Vec<u64>,
 }
 
 impl RunStats {
@@ -492,6 +494,9 @@ pub fn run_batch<P: Prop>(o: &Opts) -> i32 {
         if let Some(h) = st.interleaving {
             interleavings.insert(h);
         }
+        for h in &st.schedules_seen {
+            interleavings.insert(*h);
+        }
         for (k, v) in &st.faults {
             *agg.faults.entry(k.clone()).or_insert(0) += v;
         }
@@ -640,7 +645,7 @@ pub fn run_batch<P: Prop>(o: &Opts) -> i32 {
             "probes": agg.probes,
             "probes_stuck_at_zero": zero_probes,
             "distinct_event_logs": distinct.len(),
-            "distinct_interleavings": {"count": interleavings.len(), "measure": "hash of the merge order / schedule event sequence of the run"},
+            "distinct_interleavings": {"count": interleavings.len(), "measure": "netsim: hash of the merge order / arrival permutation of the run; poolsim: hash of the model channel's event sequence (send/recv/full/timeout/disconnect per queue) of each scheduled execution"},
             "batch_event_log_hash": format!("{:016x}", batch_hash),
             "known_findings_matched": known_hit,
             "violations": viol_summ,
